@@ -33,7 +33,9 @@ type input struct {
 }
 
 type rowIn struct {
-	TsSec   int64  `json:"ts_sec"` // 0 => zero time
+	TsSec   int64  `json:"ts_sec"` // with ts_set=false: 0 => zero time
+	TsSet   bool   `json:"ts_set,omitempty"` // timestamp is set explicitly (ts_sec may be 0 or negative)
+	TsNano  int64  `json:"ts_nano,omitempty"`
 	TsZone  int    `json:"ts_zone"`
 	Iface   string `json:"iface"`
 	Host    string `json:"host"`
@@ -58,6 +60,13 @@ func genRow(r *vhlib.Rand) *rowIn {
 	if r.Chance(70) {
 		ri.TsSec = int64(1 + r.Intn(2000000000))
 		ri.TsZone = vhlib.Pick(r, []int{0, 0, 3600, -7200, 19800})
+	}
+	if r.Chance(15) {
+		// set time labels at and around the Unix epoch and before it (still "set": IsZero() is false)
+		ri.TsSet = true
+		ri.TsSec = vhlib.Pick(r, []int64{0, 0, 1, -1, -300, 300, -86400, -2208988800})
+		ri.TsNano = vhlib.Pick(r, []int64{0, 0, 500, 999999999})
+		ri.TsZone = vhlib.Pick(r, []int{0, 3600, -7200})
 	}
 	if r.Chance(60) {
 		ri.Proto = uint8(vhlib.Pick(r, []int{1, 6, 17, 255, 58}))
@@ -92,6 +101,17 @@ func gen(r *vhlib.Rand, i int, o vhlib.Opts) any {
 	if k < 12 {
 		return input{Kind: "eq", What: whats[k%3], Lib: []string{"std", "jsoniter"}[(k/3)%2], Ptr: k/6 == 0, Seed: r.U64()}
 	}
+	if k < 24 {
+		// fixed boundary rows: time labels at / around / before the Unix epoch, v4-mapped addresses
+		secs := []int64{0, 0, 1, -1, -300, 300}
+		nanos := []int64{0, 500, 0, 0, 0, 999999999}
+		j := k - 12
+		ri := &rowIn{TsSet: true, TsSec: secs[j%6], TsNano: nanos[j%6], TsZone: []int{0, 3600}[j/6], Iface: "eth0",
+			Sip: []string{"10.0.0.1", "::ffff:10.0.0.1"}[j/6], Dip: "2001:db8::1", Proto: 6, Dport: 443,
+			Lib: []string{"std", "jsoniter"}[j%2], Ptr: j%3 == 0}
+		ri.C = [4]uint64{1, 2, 3, 4}
+		return input{Kind: "row", Row: ri}
+	}
 	if r.Chance(35) {
 		return input{Kind: "eq", What: vhlib.Pick(r, whats), Lib: vhlib.Pick(r, []string{"std", "jsoniter"}), Ptr: r.Bool(), Seed: r.U64()}
 	}
@@ -120,7 +140,9 @@ func mkAddr(s string) netip.Addr {
 
 func mkRow(ri *rowIn) results.Row {
 	var row results.Row
-	if ri.TsSec != 0 {
+	if ri.TsSet {
+		row.Labels.Timestamp = time.Unix(ri.TsSec, ri.TsNano).In(time.FixedZone("", ri.TsZone))
+	} else if ri.TsSec != 0 {
 		row.Labels.Timestamp = time.Unix(ri.TsSec, 0).In(time.FixedZone("", ri.TsZone))
 	}
 	row.Labels.Iface, row.Labels.Hostname, row.Labels.HostID = ri.Iface, ri.Host, ri.HostID
